@@ -201,6 +201,21 @@ func checkC14(c *CaseC14, fl *Fails) {
 	for _, id := range line {
 		lineSet[id] = struct{}{}
 	}
+	// error clause: a negative radius or an invalid zoom is an error (on the same, otherwise valid, arguments)
+	neg := -r
+	if r == 0 {
+		neg = -float64(c.H+1) * 1e-3
+	}
+	for _, skip := range []bool{true, false} {
+		if res, err := transform.GetExtendedSpatialIdsWithinRadiusOfLine(s, e, neg, c.H, c.V, skip); err == nil {
+			fl.Add("negative-radius-accepted", "%s: radius %v accepted (%d ids)", desc, neg, len(res))
+		}
+	}
+	for _, z := range [][2]int64{{36, c.V}, {c.H, 36}, {-1, c.V}, {c.H, -1}} {
+		if res, err := transform.GetExtendedSpatialIdsWithinRadiusOfLine(s, e, r, z[0], z[1], true); err == nil {
+			fl.Add("invalid-zoom-accepted", "%s: zooms %d/%d accepted (%d ids)", desc, z[0], z[1], len(res))
+		}
+	}
 	// layer counts reported by the clearance fit for the voxels of the line: the maximum over all of them
 	var hMax, vMax int64
 	for _, id := range line {
